@@ -632,6 +632,17 @@ impl IdmServerProxyWriteTransaction<'_> {
             .map(|set| set.iter().map(|s| Attribute::from(s.as_str())).collect())
             .unwrap_or_default();
 
+        // Entry ids inside the protected system range can never be owned by a sync agreement:
+        // refuse them before phase 2 would create stubs for them as an internal operation.
+        if let Some(bad) = changes
+            .entries
+            .iter()
+            .find(|scim_entry| scim_entry.id < DYNAMIC_RANGE_MINIMUM_UUID)
+        {
+            error!(id = %bad.id, "Sync request names an entry id inside the protected system uuid range");
+            return Err(OperationError::InvalidEntryState);
+        }
+
         // Transform the changes into something that supports lookups.
         let change_entries: BTreeMap<Uuid, &ScimEntry> = changes
             .entries
